@@ -57,7 +57,7 @@ func casesFor(f *Fed, opset string) []Case {
 	switch {
 	case strings.HasPrefix(opset, "plainK"):
 		k, _ := strconv.Atoi(opset[6:])
-		return GenOps(f.Merged, f.W, k)
+		return append(GenOps(f.Merged, f.W, k), HandOps(f)...)
 	case strings.HasPrefix(opset, "queryK"):
 		k, _ := strconv.Atoi(opset[6:])
 		return GenOps(f.Merged, f.W, k, ast.Query)
